@@ -14,6 +14,7 @@ import (
 	"fmt"
 	"sort"
 	"strings"
+	"time"
 
 	dbm "github.com/lianxiangcloud/linkchain/libs/db"
 
@@ -39,29 +40,33 @@ func init() {
 		},
 		Cases: func(tier string) int {
 			if tier == "thorough" {
-				return 24000
+				return 36000
 			}
-			return 400
+			return 1500
 		},
 		Run: run,
 		Floors: func(tier string) map[string]int64 {
 			return floors(tier)
 		},
-		PanicIsViolation: false,
+		// a panic inside a backend goroutine (not recoverable by the caller) kills the process: that is not the
+		// answer of an ordered map, so an unexpected child death counts as a violation with its crash key
+		PanicIsViolation: true,
 		Init:             core.QuietLogs,
+		BatchTimeout:     6 * time.Minute, // watchdog only (a child runs ~50 cases of < 1 s each); x3 in thorough
 	})
 }
 
 // ------------------------------------------------------------------ config
 
 type caseCfg struct {
-	Kind      string `json:"kind"` // history | bigbatch
+	Kind      string `json:"kind"` // history | bigbatch | lifecycle
 	Backend   string `json:"backend"`
 	View      bool   `json:"view"`
 	Prefix    string `json:"view_prefix_hex,omitempty"`
 	Counts    uint64 `json:"shards"`
 	EmptyKeys bool   `json:"nil_and_empty_keys"`
 	EdgeBound bool   `json:"empty_nonnil_bounds"`
+	Reuse     bool   `json:"reuse_batch_after_reset"`
 	Ops       int    `json:"ops"`
 }
 
@@ -86,6 +91,11 @@ func makeCfg(c *core.Ctx) caseCfg {
 		cfg.Backend = []string{"memdb", "goleveldb", "bolt", "badger"}[(c.Index/40)%4]
 		return cfg
 	}
+	if c.Index%40 == 19 {
+		cfg.Kind = "lifecycle"
+		cfg.Backend = []string{"badger", "badger", "memdb", "goleveldb", "bolt"}[r.Intn(5)]
+		return cfg
+	}
 	cfg.View = r.Chance(0.5)
 	if cfg.View {
 		cfg.Prefix = hex.EncodeToString(genViewPrefix(r))
@@ -97,6 +107,9 @@ func makeCfg(c *core.Ctx) caseCfg {
 	}
 	cfg.EmptyKeys = r.Chance(0.3)
 	cfg.EdgeBound = r.Chance(0.3)
+	// Reset-then-reuse of one batch object kills the process on badger (panic in a goroutine of the adapter);
+	// that path is exercised for every backend by the isolated "lifecycle" cases, here only where it is survivable.
+	cfg.Reuse = cfg.Backend != "badger"
 	switch cfg.Backend {
 	case "memdb", "goleveldb":
 		cfg.Ops = r.Range(60, 200)
@@ -155,6 +168,7 @@ type env struct {
 	hist        []string
 	opid        int
 	stopped     bool
+	reported    map[string]bool
 	multiWrites int
 	revNonEmpty int
 	preNonEmpty int
@@ -190,9 +204,27 @@ func (e *env) witness(extra map[string]interface{}) map[string]interface{} {
 	return w
 }
 
+// violate reports an unclassified divergence under the configuration tag and ends the case
+// (the reference and the store may have diverged for good).
 func (e *env) violate(key, detail string, extra map[string]interface{}) {
 	e.c.Violation(e.tag+"/"+key, detail, e.witness(extra))
 	e.stopped = true
+}
+
+// classified reports a divergence that a recogniser attributed to one precise defect class.
+// Read-only classes do not end the case (stop=false) and are reported once per case.
+func (e *env) classified(key, detail string, extra map[string]interface{}, stop bool) {
+	if e.reported == nil {
+		e.reported = map[string]bool{}
+	}
+	if !e.reported[key] {
+		e.reported[key] = true
+		e.c.Violation(key, detail, e.witness(extra))
+		e.c.Count("classified_divergences", 1)
+	}
+	if stop {
+		e.stopped = true
+	}
 }
 
 // guard runs f and turns a panic into a classified violation.
@@ -203,6 +235,14 @@ func (e *env) guard(opClass string, f func()) (ok bool) {
 			msg := fmt.Sprintf("%v", r)
 			if len(msg) > 300 {
 				msg = msg[:300]
+			}
+			if e.cfg.Backend == "badger" && !e.cfg.View && e.cfg.Counts == 1 && strings.Contains(opClass, "emptykey") && strings.Contains(msg, "Key cannot be empty") {
+				e.classified("badger/emptykey/delete-or-lookup-panics", "panic: "+msg+" ("+opClass+")", nil, true)
+				return
+			}
+			if e.cfg.Counts > 1 {
+				e.classified(e.cfg.Backend+"+split/panic", "panic: "+msg+" ("+opClass+")", nil, true)
+				return
 			}
 			e.violate(opClass+"/panic", "panic: "+msg, nil)
 		}
@@ -536,37 +576,139 @@ func diffStreams(got, want []kv, limit int) (kind string, detail string) {
 
 func (e *env) limit() int { return e.ref.len() + e.outside.len() + 8 }
 
-func (e *env) checkStream(readClass string, got, want []kv, extra map[string]interface{}) bool {
+// query describes one iterator observation.
+type query struct {
+	kind               string // scan | underlying-scan | iter-forward | iter-reverse | iter-prefix | iterate-prefix-helper
+	start, end, prefix []byte
+}
+
+func (q query) class() string {
+	switch q.kind {
+	case "iter-forward", "iter-reverse":
+		return fmt.Sprintf("%s[start=%s,end=%s]", q.kind, boundShape(q.start), boundShape(q.end))
+	case "iter-prefix", "iterate-prefix-helper":
+		return fmt.Sprintf("%s[prefix=%s]", q.kind, boundShape(q.prefix))
+	}
+	return q.kind
+}
+
+func (q query) extra() map[string]interface{} {
+	switch q.kind {
+	case "iter-forward", "iter-reverse":
+		return map[string]interface{}{"start": hx(q.start), "end": hx(q.end)}
+	case "iter-prefix", "iterate-prefix-helper":
+		return map[string]interface{}{"prefix": hx(q.prefix)}
+	}
+	return map[string]interface{}{}
+}
+
+// sameLengthIncrement is what util.go cpIncr computes (big-endian +1 keeping the length, nil on overflow);
+// re-stated here only to RECOGNISE one defect class, never to decide whether something is a violation.
+func sameLengthIncrement(b []byte) []byte {
+	r := append([]byte{}, b...)
+	for i := len(r) - 1; i >= 0; i-- {
+		if r[i] < 0xFF {
+			r[i]++
+			return r
+		}
+		r[i] = 0
+	}
+	return nil
+}
+
+// betweenRangeEndAndIncr: PrefixToEnd(p) <= k < cpIncr(p): keys that do NOT have prefix p but lie below
+// the same-length increment of p. Non-empty only for prefixes that end in 0xFF.
+func betweenRangeEndAndIncr(k, p []byte) bool {
+	lo, hi := dbm.PrefixToEnd(p), sameLengthIncrement(p)
+	if lo == nil || hi == nil || bytes.Equal(lo, hi) {
+		return false
+	}
+	return bytes.Compare(k, lo) >= 0 && bytes.Compare(k, hi) < 0
+}
+
+// classify attributes a stream divergence to a precise defect class when the whole divergence is explained by it.
+// Returns key=="" when no recogniser applies.
+func (e *env) classify(q query, got, want []kv, kind string) (key string, stop bool) {
+	if e.cfg.Counts > 1 {
+		// split stores iterate shard after shard; coarse keys on purpose (auxiliary lane)
+		return e.cfg.Backend + "+split/iteration-diverges", true
+	}
+	wantSet := map[string]bool{}
+	for _, x := range want {
+		wantSet[string(x.K)] = true
+	}
+	switch {
+	case q.kind == "iterate-prefix-helper" && len(q.prefix) > 0 && q.prefix[len(q.prefix)-1] == 0xFF && len(got) > len(want):
+		// got == want ++ (keys between the end of the prefix range and cpIncr(prefix))
+		for i, x := range got {
+			if i < len(want) {
+				if !bytes.Equal(x.K, want[i].K) || !bytes.Equal(x.V, want[i].V) {
+					return "", true
+				}
+				continue
+			}
+			if !betweenRangeEndAndIncr(x.K, q.prefix) {
+				return "", true
+			}
+		}
+		return "iterate-prefix-helper/ff-terminated-prefix/keys-beyond-prefix-range-included", false
+	case e.cfg.View && q.kind == "iter-reverse" && q.start == nil && len(got) == 0 && len(want) > 0 &&
+		len(e.prefix) > 0 && e.prefix[len(e.prefix)-1] == 0xFF:
+		for k := range e.outside.m {
+			if betweenRangeEndAndIncr([]byte(k), e.prefix) {
+				return "prefixview/iter-reverse-nil-start/ff-terminated-view-prefix/empty-stream", false
+			}
+		}
+	case e.cfg.Backend == "badger" && !e.cfg.View && q.kind == "iter-reverse" && q.start != nil && len(q.start) == 0 && len(got) > len(want):
+		// an empty non-nil start is the smallest key: only the empty key could be yielded
+		return "badger/iter-reverse/empty-nonnil-start/treated-as-unbounded", false
+	case (e.cfg.Backend == "bolt" || e.cfg.Backend == "badger") && !e.cfg.View && kind == "missing-key-emptykey" && len(got) == len(want)-1:
+		return e.cfg.Backend + "/emptykey/write-silently-dropped", true
+	}
+	return "", true
+}
+
+func (e *env) checkStream(q query, got, want []kv) bool {
 	e.c.Count("iter_items_compared", int64(len(got)))
 	kind, detail := diffStreams(got, want, e.limit())
 	if kind == "" {
 		return true
 	}
-	if extra == nil {
-		extra = map[string]interface{}{}
-	}
+	extra := q.extra()
 	extra["got"] = fmtStream(got, 40)
 	extra["want"] = fmtStream(want, 40)
-	e.violate("after-"+e.lastOp+"/"+readClass+"/"+kind, detail, extra)
+	extra["after_operation"] = e.lastOp
+	extra["observation"] = q.class()
+	if key, stop := e.classify(q, got, want, kind); key != "" {
+		e.classified(key, fmt.Sprintf("%s (%s after %s)", detail, q.class(), e.lastOp), extra, stop)
+		return !stop
+	}
+	e.violate("after-"+e.lastOp+"/"+q.class()+"/"+kind, detail, extra)
 	return false
+}
+
+func (e *env) observe(q query, mk func() dbm.Iterator) ([]kv, bool) {
+	return e.drain("after-"+e.lastOp+"/"+q.class(), e.limit(), mk)
 }
 
 // scan: full forward iteration == complete reference content.
 func (e *env) scan() bool {
-	got, ok := e.drain("after-"+e.lastOp+"/scan", e.limit(), func() dbm.Iterator { return e.db.Iterator(nil, nil) })
+	q := query{kind: "scan"}
+	got, ok := e.observe(q, func() dbm.Iterator { return e.db.Iterator(nil, nil) })
 	if !ok {
 		return false
 	}
 	e.c.Count("full_scans", 1)
-	return e.checkStream("scan", got, e.ref.forward(nil, nil), nil)
+	return e.checkStream(q, got, e.ref.forward(nil, nil))
 }
 
 // scanUnder: for views, the underlying store == outside keys + prefixed view content.
 func (e *env) scanUnder() bool {
-	if !e.cfg.View || e.cfg.Counts > 1 {
-		return true
+	if !e.cfg.View || e.cfg.Counts > 1 || e.stopped {
+		return !e.stopped
 	}
-	got, ok := e.drain("after-"+e.lastOp+"/underlying-scan", e.limit(), func() dbm.Iterator { return e.under.Iterator(nil, nil) })
+	q := query{kind: "underlying-scan"}
+	got, ok := e.observe(q, func() dbm.Iterator { return e.under.Iterator(nil, nil) })
 	if !ok {
 		return false
 	}
@@ -575,7 +717,7 @@ func (e *env) scanUnder() bool {
 		all.m[string(e.prefix)+k] = v
 	}
 	e.c.Count("underlying_scans", 1)
-	return e.checkStream("underlying-scan", got, all.forward(nil, nil), nil)
+	return e.checkStream(q, got, all.forward(nil, nil))
 }
 
 func (e *env) lookup(k []byte) bool {
@@ -585,16 +727,19 @@ func (e *env) lookup(k []byte) bool {
 		found bool
 		val   []byte
 		hasV  bool
+		err   error
 	}
 	var o []obs
 	ok := e.guard("after-"+e.lastOp+"/lookup-"+keyShape(k), func() {
 		v := e.db.Get(k)
-		o = append(o, obs{"Get", v != nil, v, true})
-		o = append(o, obs{"Has", e.db.Has(k), nil, false})
-		v2, _ := e.db.Load(k)
-		o = append(o, obs{"Load", v2 != nil, v2, true})
-		ex, _ := e.db.Exist(k)
-		o = append(o, obs{"Exist", ex, nil, false})
+		o = append(o, obs{"Get", v != nil, v, true, nil})
+		o = append(o, obs{"Has", e.db.Has(k), nil, false, nil})
+		// Load signals "missing" by a nil value (memdb) or by an error (the others); which error is excluded
+		// by the property, so: found <=> no error and a non-nil value.
+		v2, err := e.db.Load(k)
+		o = append(o, obs{"Load", err == nil && v2 != nil, v2, true, err})
+		ex, err2 := e.db.Exist(k)
+		o = append(o, obs{"Exist", ex, nil, false, err2})
 	})
 	if !ok {
 		return false
@@ -607,17 +752,30 @@ func (e *env) lookup(k []byte) bool {
 	}
 	for _, x := range o {
 		if x.found != wantFound {
+			extra := map[string]interface{}{"method": x.name, "key": hx(k), "want_value": hx(wantV), "after_operation": e.lastOp}
+			detail := fmt.Sprintf("%s(%s): found=%v, reference found=%v", x.name, hx(k), x.found, wantFound)
+			if x.name == "Exist" && x.found && x.err != nil && e.cfg.Backend == "goleveldb" {
+				// read-only, classified: callers such as libs/trie/sync.go use `ok, _ := db.Exist(k)`
+				e.classified("goleveldb/exist/true-with-error-for-absent-key", detail+fmt.Sprintf(" (err=%v)", x.err), extra, false)
+				continue
+			}
+			if (e.cfg.Backend == "bolt" || e.cfg.Backend == "badger") && !e.cfg.View && e.cfg.Counts == 1 && len(k) == 0 && wantFound {
+				e.classified(e.cfg.Backend+"/emptykey/write-silently-dropped", detail, extra, true)
+				return false
+			}
 			what := "found-but-absent"
 			if wantFound {
 				what = "not-found-but-present"
 			}
-			e.violate("after-"+e.lastOp+"/lookup-"+keyShape(k)+"/"+what,
-				fmt.Sprintf("%s(%s): found=%v, reference found=%v", x.name, hx(k), x.found, wantFound),
-				map[string]interface{}{"method": x.name, "key": hx(k), "want_value": hx(wantV)})
+			if e.cfg.Counts > 1 {
+				e.classified(e.cfg.Backend+"+split/lookup/"+what, detail, extra, true)
+				return false
+			}
+			e.violate("after-"+e.lastOp+"/lookup-"+keyShape(k)+"/"+x.name+"-"+what, detail, extra)
 			return false
 		}
 		if x.hasV && wantFound && !bytes.Equal(x.val, wantV) {
-			e.violate("after-"+e.lastOp+"/lookup-"+keyShape(k)+"/wrong-value",
+			e.violate("after-"+e.lastOp+"/lookup-"+keyShape(k)+"/"+x.name+"-wrong-value",
 				fmt.Sprintf("%s(%s) = %s, reference %s", x.name, hx(k), hx(x.val), hx(wantV)),
 				map[string]interface{}{"method": x.name, "key": hx(k)})
 			return false
@@ -641,8 +799,8 @@ func (e *env) randomIter() bool {
 	switch r.Intn(10) {
 	case 0, 1, 2: // forward
 		s, en := orderBounds(r, e.genBound(), e.genBound(), true)
-		cls := fmt.Sprintf("iter-forward[start=%s,end=%s]", boundShape(s), boundShape(en))
-		got, ok := e.drain("after-"+e.lastOp+"/"+cls, e.limit(), func() dbm.Iterator { return e.db.Iterator(s, en) })
+		q := query{kind: "iter-forward", start: s, end: en}
+		got, ok := e.observe(q, func() dbm.Iterator { return e.db.Iterator(s, en) })
 		if !ok {
 			return false
 		}
@@ -651,11 +809,11 @@ func (e *env) randomIter() bool {
 		if len(want) > 0 {
 			e.c.Count("iter_forward_nonempty", 1)
 		}
-		return e.checkStream(cls, got, want, map[string]interface{}{"start": hx(s), "end": hx(en)})
+		return e.checkStream(q, got, want)
 	case 3, 4, 5, 6: // reverse
 		s, en := orderBounds(r, e.genBound(), e.genBound(), false)
-		cls := fmt.Sprintf("iter-reverse[start=%s,end=%s]", boundShape(s), boundShape(en))
-		got, ok := e.drain("after-"+e.lastOp+"/"+cls, e.limit(), func() dbm.Iterator { return e.db.ReverseIterator(s, en) })
+		q := query{kind: "iter-reverse", start: s, end: en}
+		got, ok := e.observe(q, func() dbm.Iterator { return e.db.ReverseIterator(s, en) })
 		if !ok {
 			return false
 		}
@@ -665,11 +823,11 @@ func (e *env) randomIter() bool {
 			e.c.Count("iter_reverse_nonempty", 1)
 			e.revNonEmpty++
 		}
-		return e.checkStream(cls, got, want, map[string]interface{}{"start": hx(s), "end": hx(en)})
+		return e.checkStream(q, got, want)
 	case 7, 8: // prefix via the DB method
 		p := e.genPrefix()
-		cls := fmt.Sprintf("iter-prefix[prefix=%s]", boundShape(p))
-		got, ok := e.drain("after-"+e.lastOp+"/"+cls, e.limit(), func() dbm.Iterator { return e.db.NewIteratorWithPrefix(p) })
+		q := query{kind: "iter-prefix", prefix: p}
+		got, ok := e.observe(q, func() dbm.Iterator { return e.db.NewIteratorWithPrefix(p) })
 		if !ok {
 			return false
 		}
@@ -679,11 +837,11 @@ func (e *env) randomIter() bool {
 			e.c.Count("iter_prefix_nonempty", 1)
 			e.preNonEmpty++
 		}
-		return e.checkStream(cls, got, want, map[string]interface{}{"prefix": hx(p)})
+		return e.checkStream(q, got, want)
 	default: // prefix via util.go IteratePrefix (cpIncr)
 		p := e.genPrefix()
-		cls := fmt.Sprintf("iterate-prefix-helper[prefix=%s]", boundShape(p))
-		got, ok := e.drain("after-"+e.lastOp+"/"+cls, e.limit(), func() dbm.Iterator { return dbm.IteratePrefix(e.db, p) })
+		q := query{kind: "iterate-prefix-helper", prefix: p}
+		got, ok := e.observe(q, func() dbm.Iterator { return dbm.IteratePrefix(e.db, p) })
 		if !ok {
 			return false
 		}
@@ -693,7 +851,7 @@ func (e *env) randomIter() bool {
 			e.c.Count("iter_prefix_nonempty", 1)
 			e.preNonEmpty++
 		}
-		return e.checkStream(cls, got, want, map[string]interface{}{"prefix": hx(p)})
+		return e.checkStream(q, got, want)
 	}
 }
 
@@ -966,7 +1124,12 @@ func (e *env) opBatchEnd() bool {
 		}
 		return e.verify(touched)
 	case x < 82: // reset, keep the batch for reuse
-		e.log("b.Reset() [%d staged ops dropped, batch kept for reuse]", len(e.pend))
+		keep := e.cfg.Reuse
+		if keep {
+			e.log("b.Reset() [%d staged ops dropped, batch kept for reuse]", len(e.pend))
+		} else {
+			e.log("b.Reset() [%d staged ops dropped, batch then abandoned]", len(e.pend))
+		}
 		e.lastOp = "batch-reset"
 		if !e.guard(e.lastOp, func() { e.batch.Reset() }) {
 			return false
@@ -977,6 +1140,10 @@ func (e *env) opBatchEnd() bool {
 		}
 		e.pend = nil
 		e.batchDirty = true
+		if !keep {
+			e.batch = nil
+			e.batchDirty = false
+		}
 		e.c.Count("batches_reset", 1)
 		if len(touched) > 4 {
 			touched = touched[:4]
@@ -1033,6 +1200,10 @@ func run(c *core.Ctx) {
 	cfg := makeCfg(c)
 	if cfg.Kind == "bigbatch" {
 		runBigBatch(c, cfg)
+		return
+	}
+	if cfg.Kind == "lifecycle" {
+		runLifecycle(c, cfg)
 		return
 	}
 	e := &env{c: c, r: c.Rng, cfg: cfg, dir: c.Scratch, ref: newRef(), outside: newRef()}
